@@ -6,7 +6,8 @@
                                -> <count> lines "<up0> <tok> ..." : random scripts that are enabled
                                   in the model and feasible for the harness (see notes/C15.md)
      consts                    -> "maxConnAttempts=<n> maxSendAttempts=<n>"
-   script tokens: DR DS DB DH DC DE (dial outcomes) X (drop) T/t (Stop live/force)
+     start <up0> <phases>      -> SDK calls and isUp of a history started by Driver.Start (phases over e, r)
+   script tokens: DR DS DB DH DC DE (dial outcomes) X (drop) T/t (Stop live/force) Y/y (StopAtEntry)
                   U<n>/u<n> (UpdateAddr live/force) F/G (SDK fails on/off) Q/q/Qe/Qw/Qg/Ql (TrySend; a connected
                   reader answers ok / error status / ERROR_MESSAGE / wrong type / undecodable / too late)
    log tokens:    d<a> hs fail norm rU+ rU- rD+ rD- stop a<n> s<calls>/<sendfor>/<class> *)
@@ -25,6 +26,7 @@ let event_of_tok (t:string) : event =
   | "DR" -> Dial Refused | "DS" | "DZ" -> Dial AcceptedSilent | "DB" -> Dial BadHandshake
   | "DH" -> Dial HandshakeThenDropped | "DC" -> Dial ClosedNormally | "DE" -> Dial Established
   | "X" -> Drop | "T" -> Stop false | "t" -> Stop true
+  | "Y" -> StopAtEntry false | "y" -> StopAtEntry true
   | "F" -> SdkFail true | "G" -> SdkFail false
   | "Q" -> Send ReaderOk | "q" -> Send ReaderRejects
   | "Qe" -> Send ReaderErrorMessage | "Qw" -> Send ReaderWrongType
@@ -156,6 +158,20 @@ let sys n =
           [true; false]) (seqs len)
   done
 
+(* a history that starts through Driver.Start with the operating state recorded in EdgeX: phases
+   'e' (the reader accepts: Established) and 'r' (the reader is unreachable for at least two
+   attempts: the standing connection breaks, then refused dials); answer: the SDK calls and isUp *)
+let start_class up0 phases =
+  let s = ref (init up0 N0) in
+  String.iter (fun c ->
+      match c with
+      | 'e' -> s := step !s (Dial Established)
+      | 'r' -> if connected !s then s := step !s Drop;
+        for _ = 1 to 3 do s := step !s (Dial Refused) done
+      | _ -> failwith "bad phase") phases;
+  let reps = List.filter (fun t -> String.length t > 0 && t.[0] = 'r') (List.map entry_s (log !s)) in
+  Printf.printf "%s | up=%s\n" (String.concat " " reps) (b01 (isUp !s))
+
 let () =
   try
     while true do
@@ -165,6 +181,7 @@ let () =
        | ["gen"; seed; count; md; ml] ->
          gen (int_of_string seed) (int_of_string count) (int_of_string md) (int_of_string ml)
        | ["sys"; n] -> sys (int_of_string n)
+       | ["start"; up0; phases] -> (try start_class (up0 = "1") phases with Failure m -> print_endline ("error: " ^ m))
        | ["consts"] -> Printf.printf "maxConnAttempts=%d maxSendAttempts=%d\n"
                          (int_of_nat max_conn_attempts) (int_of_nat max_send_attempts)
        | [] -> ()
